@@ -255,12 +255,15 @@ theorem backup_equiv (o : BackupOpts) (src : List SrcEntry) :
   · pe_leaf
   · apply ProgEquiv.bindEq lastBandId_equiv; intro basisBand
     apply ProgEquiv.bindEq bandCreate_equiv; intro band
-    apply ProgEquiv.bind listBlocks_equiv; intro blocks blocks' hb
+    apply ProgEquiv.bindEq gcLockListed_equiv; intro c2
     split
-    · apply ProgEquiv.bindEq (listEntries_equiv _ _ _); intro basis
-      bk_tail
-    · apply ProgEquiv.bindEq (ProgEquiv.pureEq _); intro basis
-      bk_tail
+    · pe_leaf
+    · apply ProgEquiv.bind listBlocks_equiv; intro blocks blocks' hb
+      split
+      · apply ProgEquiv.bindEq (listEntries_equiv _ _ _); intro basis
+        bk_tail
+      · apply ProgEquiv.bindEq (ProgEquiv.pureEq _); intro basis
+        bk_tail
 
 end
 end Conserve
